@@ -9,13 +9,14 @@ Ltac Zify.zify_post_hook ::= Z.div_mod_to_equations.
 (* ---------- induction over shapes ---------- *)
 Section ShapeInd.
   Variable P : shape -> Prop.
-  Hypothesis Hscalar : forall s, (match s with SVec _ | SClass _ | SBytes | SMap _ _ | SArr _ _ | SVecBool => False | _ => True end) -> P s.
+  Hypothesis Hscalar : forall s, (match s with SVec _ | SClass _ | SBytes | SMap _ _ | SArr _ _ | SVecBool | STuple _ => False | _ => True end) -> P s.
   Hypothesis Hbytes : P SBytes.
   Hypothesis Hvec : forall e, P e -> P (SVec e).
   Hypothesis Hclass : forall ms, Forall (fun m => P (snd m)) ms -> P (SClass ms).
   Hypothesis Hmap : forall ks e, P e -> P (SMap ks e).
   Hypothesis Harr : forall n e, P e -> P (SArr n e).
   Hypothesis Hvb : P SVecBool.
+  Hypothesis Htuple : forall ss, Forall P ss -> P (STuple ss).
   Fixpoint shape_ind' (s : shape) : P s :=
     match s with
     | SVec e => Hvec e (shape_ind' e)
@@ -28,6 +29,11 @@ Section ShapeInd.
     | SMap ks e => Hmap ks e (shape_ind' e)
     | SArr n e => Harr n e (shape_ind' e)
     | SVecBool => Hvb
+    | STuple ss => Htuple ss ((fix go (ss : list shape) : Forall P ss :=
+                                 match ss with
+                                 | [] => Forall_nil _
+                                 | s' :: t => Forall_cons s' (shape_ind' s') (go t)
+                                 end) ss)
     | SNil => Hscalar SNil I | SBool => Hscalar SBool I | SInt k => Hscalar (SInt k) I
     | SF32 => Hscalar SF32 I | SF64 => Hscalar SF64 I | SStr => Hscalar SStr I
     end.
@@ -62,6 +68,16 @@ Qed.
 
 Lemma dok_arr n e vs : dok (SArr n e) (MArr vs) -> Forall (dok e) vs.
 Proof. intros [H | H]; [apply (dok_vec e vs); left; exact H | apply (dok_vec e vs); right; exact H]. Qed.
+
+Lemma map_free_tuple ss : map_free (STuple ss) = forallb map_free ss.
+Proof. induction ss as [|s' ss IH]; [reflexivity|]. cbn [forallb]. rewrite <- IH. reflexivity. Qed.
+
+Lemma dok_tuple ss vs : dok (STuple ss) (MArr vs) -> forall s v, In (s, v) (combine ss vs) -> dok s v.
+Proof.
+  intros [H | H] s v Hin.
+  - left. rewrite map_free_tuple, forallb_forall in H. exact (H s (in_combine_l _ _ _ _ Hin)).
+  - right. pose proof (doc_ok_arr _ H) as HF. rewrite Forall_forall in HF. exact (HF v (in_combine_r _ _ _ _ Hin)).
+Qed.
 
 Lemma dok_class ms kvs : dok (SClass ms) (MMap kvs) ->
   forall name s' x, In (name, s') ms -> lookup (KStr name) kvs = Some x -> dok s' x.
@@ -167,6 +183,11 @@ Section Programs.
   Lemma elem_prog_vb v : elem_prog SVecBool v = [AArr (arr_prog bool_prog v)].
   Proof. reflexivity. Qed.
   Lemma member_prog_vb q ov : member_prog SVecBool q ov = [RArr q (match ov with Some v => arr_prog bool_prog v | None => ANil end)].
+  Proof. reflexivity. Qed.
+  Lemma elem_prog_tuple ss v : elem_prog (STuple ss) v = [AArr (match v with MArr vs => mk_areqs (comps_prog o elem_prog ss vs) | _ => ANil end)].
+  Proof. reflexivity. Qed.
+  Lemma member_prog_tuple ss q ov : member_prog (STuple ss) q ov =
+    [RArr q (match ov with Some (MArr vs) => mk_areqs (comps_prog o elem_prog ss vs) | _ => ANil end)].
   Proof. reflexivity. Qed.
   Lemma member_prog_map ks e q ov : member_prog (SMap ks e) q ov =
     [RObj q (match ov with Some (MMap kvs) => mk_reqs [REach (mk_vacts (map_acts o ks (vact_prog e) kvs))] | _ => RNil end)].
@@ -352,6 +373,63 @@ Section Programs.
     spec_vact kvs q (VBinArr n body) = match spec_req kvs (RArr q body) with (t2, e2, c2) => (KNone :: t2, e2, c2) end.
   Proof. intros Hl Hb. rewrite spec_vact_binarr, spec_req_arr, Hl. destruct x; try discriminate Hb; reflexivity. Qed.
 
+  (* ---------- std::tuple ---------- *)
+  (* an error-free sequence of requests is the same inside the tuple loader's try block: nothing is caught *)
+  Lemma try_free p : forall vs t c vs', spec_areqs vs (mk_areqs p) = ((t, None, c), vs') ->
+    spec_areqs vs (mk_areqs (map ATry p)) = ((t, None, c), vs').
+  Proof.
+    induction p as [|a p IH]; intros vs t c vs' H; [exact H|]. cbn [map mk_areqs] in *. rewrite spec_areqs_cons in *.
+    destruct (spec_areq vs a) as [[[t1 e1] c1] vs1] eqn:E1. destruct e1 as [e1|]; [discriminate H|].
+    assert (Et : spec_areq vs (ATry a) = spec_areq vs a).
+    { rewrite spec_areq_try. destruct vs as [|v0 vs0]; [|reflexivity].
+      destruct a; try reflexivity; cbn [MpScopeSpec.spec_areq] in E1; discriminate E1. }
+    rewrite Et, E1. destruct (spec_areqs vs1 (mk_areqs p)) as [[[t2 e2] c2] vs2] eqn:E2. destruct e2 as [e2|]; [discriminate H|].
+    rewrite (IH vs1 t2 c2 vs2 E2). exact H.
+  Qed.
+
+  Lemma caught_on_empty a : guarded a = true -> spec_areq [] (ATry a) = (([KCaught], None, true), []).
+  Proof. destruct a; intros H; try discriminate H; reflexivity. Qed.
+
+  (* the components of a tuple against the elements of the document array *)
+  Lemma comps_loop ss : Forall elem_ok ss ->
+    forall vs toks items, (forall s v, In (s, v) (combine ss vs) -> dok s v) ->
+    comps_tr o load_tr ss vs = (toks, items, None) ->
+    exists c vs', spec_areqs vs (mk_areqs (comps_prog o elem_prog ss vs)) = ((toks, None, c), vs').
+  Proof.
+    induction 1 as [|s ss Hs _ IH]; intros vs toks items HD H; cbn [comps_tr comps_prog] in *.
+    - destruct vs as [|v vs].
+      + injection H as <- _. eexists _, _. reflexivity.
+      + destruct (o_mismatch o); [discriminate H|]. injection H as <- _. eexists _, _. reflexivity.
+    - destruct vs as [|v vs].
+      + destruct (o_mismatch o); [discriminate H|]. injection H as <- _. eexists _, _. reflexivity.
+      + destruct (load_tr s v) as [t r] eqn:El.
+        assert (Hr : no_err r /\ exists t' items', comps_tr o load_tr ss vs = (t', items', None) /\ toks = KIsEnd false :: t ++ t').
+        { destruct r; [| |discriminate H].
+          all: destruct (comps_tr o load_tr ss vs) as [[t' items'] err]; injection H as <- _ ->; split; [exact I | eauto]. }
+        destruct Hr as [Hne [t' [items' [Hrest ->]]]].
+        destruct (Hs v vs t r (HD s v (or_introl eq_refl)) El Hne) as [c1 E1].
+        destruct (IH vs t' items' (fun s0 v0 Hin => HD s0 v0 (or_intror Hin)) Hrest) as [c2 [vs' E2]].
+        cbn [mk_areqs]. rewrite spec_areqs_cons. cbn [MpScopeSpec.spec_areq].
+        rewrite spec_areqs_app, E1, E2. eexists _, _. reflexivity.
+  Qed.
+
+  Lemma tuple_body ss : Forall elem_ok ss -> forall v toks r, dok (STuple ss) v -> load_tr (STuple ss) v = (toks, r) -> no_err r ->
+    exists c, (match v with
+               | MArr vs2 =>
+                 match spec_areqs vs2 (match v with MArr vs => mk_areqs (comps_prog o elem_prog ss vs) | _ => ANil end) with
+                 | (r', lft) => child r' (match lft with [] => true | _ => false end)
+                 end
+               | _ => not_container o v
+               end) = (toks, None, c).
+  Proof.
+    intros Hss v toks r HD H Hn. cbn [MpLoadModel.load_tr] in H.
+    destruct v; try (destruct (no_container_spec _ _ _ H Hn) as [E _]; rewrite E; eexists; reflexivity).
+    destruct (comps_tr o load_tr ss l) as [[t items] err] eqn:Et. destruct err as [err|].
+    { injection H as _ <-. destruct Hn. }
+    injection H as <- _. destruct (comps_loop ss Hss l t items (dok_tuple ss l HD) Et) as [c [vs' E]]. rewrite E.
+    eexists. reflexivity.
+  Qed.
+
   (* the keyed load from inside the callback is the keyed load of a member whose key finds the value *)
   Lemma vact_of_member s : member_ok s -> vact_ok s.
   Proof.
@@ -535,6 +613,19 @@ Section Programs.
         destruct Hv as [r' [H' Hn']].
         destruct (vec_member SBool _ bool_prog TArr any q kvs toks r' bool_elem (fun l _ => any_all l) H' Hn') as [c E].
         cbn [mk_reqs]. rewrite spec_reqs_cons, E. cbn [MpScopeSpec.spec_reqs]. eexists. rewrite app_nil_r. reflexivity.
+    - (* std::tuple *)
+      intros ss Hss. apply Hthird.
+      assert (He : Forall elem_ok ss) by (eapply Forall_impl; [|exact Hss]; intros s0 [H0 _]; exact H0).
+      pose proof (tuple_body ss He) as Hbody. split.
+      + intros v vs toks r HD H Hn. rewrite elem_prog_tuple. cbn [mk_areqs]. rewrite spec_areqs_cons, spec_areq_arr.
+        destruct (Hbody v toks r HD H Hn) as [c E].
+        destruct v; try (rewrite E; cbn [MpScopeSpec.spec_areqs]; eexists; rewrite app_nil_r; reflexivity).
+        destruct (spec_areqs l _) as [r' lft]. rewrite E. cbn [MpScopeSpec.spec_areqs]. eexists. rewrite app_nil_r. reflexivity.
+      + intros q kvs toks r HD H Hn. unfold member_tr in H. rewrite member_prog_tuple. cbn [mk_reqs]. rewrite spec_reqs_cons, spec_req_arr.
+        destruct (lookup (key_of_q q) kvs) as [v|].
+        * destruct (Hbody v toks r (HD v eq_refl) H Hn) as [c E].
+          destruct v; rewrite E; cbn [MpScopeSpec.spec_reqs]; eexists; rewrite app_nil_r; reflexivity.
+        * injection H as <- _. cbn [MpScopeSpec.spec_reqs absent_toks]. eexists. reflexivity.
   Qed.
 End Programs.
 
@@ -556,6 +647,14 @@ Proof. cbn [has_shape]. f_equal. induction l as [|x t IH]; [reflexivity|]. cbn [
 Fixpoint all_bool (l : list tv) : bool := match l with [] => true | TBool _ :: t => all_bool t | _ => false end.
 Lemma has_shape_vb l : has_shape (TArr l) SVecBool = all_bool l.
 Proof. induction l as [|x t IH]; [reflexivity|]. cbn [all_bool]. rewrite <- IH. reflexivity. Qed.
+Fixpoint tuple_shape (l : list tv) (ss : list shape) : bool :=
+  match l, ss with
+  | [], [] => true
+  | x :: t, s' :: ss' => has_shape x s' && tuple_shape t ss'
+  | _, _ => false
+  end.
+Lemma has_shape_tuple l : forall ss, has_shape (TArr l) (STuple ss) = tuple_shape l ss.
+Proof. induction l as [|x t IH]; intros [|s' ss']; reflexivity. Qed.
 Lemma has_shape_obj l : forall ms, has_shape (TObj l) (SClass ms) = class_shape l ms.
 Proof.
   induction l as [|[k x] t IH]; intros [|[name s'] ms']; reflexivity.
@@ -654,6 +753,17 @@ Section RoundTrip.
       eexists. reflexivity.
   Qed.
 
+  Lemma rt_comps : forall l ss, Forall rt l -> tuple_shape l ss = true -> wf_list l -> Forall (fun v => doc_ok v = true) (map abs l) ->
+    exists t, comps_tr o load_tr ss (map abs l) = (t, l, None).
+  Proof.
+    induction l as [|x l IH]; intros [|s' ss'] HF Hs Hw Hd; try discriminate Hs; cbn [map comps_tr].
+    - eexists. reflexivity.
+    - inversion HF as [|? ? Hx Hl]; subst. cbn [tuple_shape] in Hs. apply andb_true_iff in Hs. destruct Hs as [Hsx Hsl].
+      destruct Hw as [Hwx Hwl]. cbn [map] in Hd. inversion Hd as [|? ? Hdx Hdl]; subst.
+      destruct (Hx s' Hsx Hwx Hdx) as [tx Ex]. rewrite Ex. destruct (IH ss' Hl Hsl Hwl Hdl) as [t Et]. rewrite Et.
+      eexists. reflexivity.
+  Qed.
+
   Lemma rt_bools : forall l prev, all_bool l = true ->
     exists t, bools_tr (scalar_tr narrow widen o SBool (TgInt (mkIty false 1))) prev (map abs l) = (t, l, None).
   Proof.
@@ -688,6 +798,8 @@ Section RoundTrip.
         destruct (rt_elems e l HF Hs Hw Hd) as [t Et]. rewrite Et, map_length, Hlen, Nat.eqb_refl. eexists. reflexivity.
       + rewrite has_shape_vb in Hs. cbn [abs MpLoadModel.load_tr].
         destruct (rt_bools l false Hs) as [t Et]. rewrite Et. eexists. reflexivity.
+      + rewrite has_shape_tuple in Hs. rewrite wf_arr in Hw. apply doc_ok_arr in Hd. cbn [abs MpLoadModel.load_tr].
+        destruct (rt_comps l ss HF Hs Hw Hd) as [t Et]. rewrite Et. eexists. reflexivity.
     - intros kvs HF [] Hs Hw Hd; try discriminate Hs.
       + rewrite has_shape_obj in Hs. rewrite wf_obj in Hw.
         rewrite abs_obj in *. destruct (doc_ok_map _ Hd) as [_ [Hdist Hvals]].
@@ -778,6 +890,24 @@ Section Transport.
   Proof.
     intros Hb Hd Hok H Hn.
     exact (load_vec_on_model data vs rest e toks r Hb Hd Hok (arr_as_vec narrow widen o n e (MArr vs) toks r H Hn) Hn).
+  Qed.
+
+  (* a std::tuple at the root: a document array shorter than the tuple (Skip policy) is inside: the exhausted array's
+     "no more items" is caught; elements left over are passed by the scope's destructor *)
+  Theorem load_tuple_on_model data vs rest ss toks r :
+    bytes data -> decode data = Some (MArr vs, rest) -> doc_ok (MArr vs) = true ->
+    load_tr (STuple ss) (MArr vs) = (toks, r) -> no_err r ->
+    run_arr_root narrow widen o data (tuple_prog o ss vs) = Done toks rest false /\
+    load_arr narrow widen o data (tuple_prog o ss vs) = MpScopeModel.LOk toks rest.
+  Proof.
+    intros Hb Hd Hok H Hn. cbn [MpLoadModel.load_tr] in H.
+    destruct (comps_tr o load_tr ss vs) as [[t items] err] eqn:Et. destruct err as [err|].
+    { injection H as _ <-. destruct Hn. }
+    injection H as <- _.
+    assert (He : Forall (elem_ok narrow widen o) ss) by (apply Forall_forall; intros s0 _; apply progs_ok).
+    destruct (comps_loop narrow widen o ss He vs t items (dok_tuple ss vs (or_intror Hok)) Et) as [c [vs' E]].
+    pose proof (arr_root_refines narrow widen o data vs rest (tuple_prog o ss vs) t c vs' Hb Hd Hok E) as R.
+    split; [exact R|]. unfold load_arr. rewrite R. reflexivity.
   Qed.
 
   (* std::vector<bool> at the root *)
@@ -988,6 +1118,23 @@ Lemma ex_fix_loads :
   load_bytes no_narrow id_widen skip_all ex_fix_shape ex_fix_bytes2 = LErr SERange.
 Proof. split; vm_compute; reflexivity. Qed.
 
+(* std::tuple<int32_t, std::string, std::array<uint8_t, 2>> *)
+Definition ex_tup_shape : shape := STuple [SInt IS32; SStr; SArr 2 (SInt IU8)].
+Definition ex_tup_tree : tv := TArr [TInt IS32 (-5); TStr [0x61]; TArr [TInt IU8 1; TInt IU8 2]].
+Lemma ex_tup_roundtrip : exists b, save ex_tup_tree = Some b /\ load_bytes no_narrow id_widen skip_all ex_tup_shape b = LOk ex_tup_tree.
+Proof. eexists. split; [vm_compute; reflexivity|]. vm_compute. reflexivity. Qed.
+(* [7]: shorter than the tuple: under Skip the other components keep their values, under Throw MismatchedTypes;
+   [7, "a", [1, 2], 9]: one element too many: passed over under Skip, MismatchedTypes under Throw;
+   [7, "a", [1]]: the nested array's count mismatch is OutOfRange whatever the policy (swallowed before 9e55af6: M02) *)
+Lemma ex_tup_loads :
+  load_bytes no_narrow id_widen skip_all ex_tup_shape [0x91; 0x07] = LOk (TArr [TInt IS32 7; TStr []; TArr [TInt IU8 0; TInt IU8 0]]) /\
+  load_bytes no_narrow id_widen (mkOpts PThrow PThrow) ex_tup_shape [0x91; 0x07] = LErr (SE EMismatch) /\
+  load_bytes no_narrow id_widen skip_all ex_tup_shape [0x94; 0x07; 0xA1; 0x61; 0x92; 0x01; 0x02; 0x09] =
+    LOk (TArr [TInt IS32 7; TStr [0x61]; TArr [TInt IU8 1; TInt IU8 2]]) /\
+  load_bytes no_narrow id_widen (mkOpts PThrow PThrow) ex_tup_shape [0x94; 0x07; 0xA1; 0x61; 0x92; 0x01; 0x02; 0x09] = LErr (SE EMismatch) /\
+  load_bytes no_narrow id_widen skip_all ex_tup_shape [0x93; 0x07; 0xA1; 0x61; 0x91; 0x01] = LErr SERange.
+Proof. repeat split; vm_compute; reflexivity. Qed.
+
 (* ---------- the tokens determine the loaded value ---------- *)
 Section ReadOff.
   Variable narrow : N -> option N.
@@ -1100,6 +1247,23 @@ Section ReadOff.
         specialize (IH _ _ _ E'). cbn [length]. rewrite app_length. lia.
   Qed.
 
+  Lemma comps_read ss : Forall read_ok' ss ->
+    forall vs t items, comps_tr o load_tr ss vs = (t, items, None) ->
+    forall rest, read_comps read_off ss (t ++ KClose :: rest) = Some (items, rest).
+  Proof.
+    induction 1 as [|s ss [Hrd _] _ IH]; intros vs t items H rest; cbn [comps_tr read_comps] in *.
+    - destruct vs as [|v vs]; [injection H as <- <-; reflexivity|].
+      destruct (o_mismatch o); [discriminate H|]. injection H as <- <-. reflexivity.
+    - destruct vs as [|v vs].
+      + destruct (o_mismatch o); [discriminate H|]. injection H as <- <-. reflexivity.
+      + destruct (load_tr s v) as [t0 r] eqn:El.
+        assert (Hr : no_err r /\ exists t' items', comps_tr o load_tr ss vs = (t', items', None) /\ t = KIsEnd false :: t0 ++ t' /\ items = fill s r :: items').
+        { destruct r; [| |discriminate H].
+          all: destruct (comps_tr o load_tr ss vs) as [[t' i'] e']; injection H as <- <- ->; split; [exact I | eauto]. }
+        destruct Hr as [Hn [t' [items' [Hrest [-> ->]]]]].
+        cbn [app]. rewrite <- app_assoc. rewrite (Hrd v t0 r (t' ++ KClose :: rest) El Hn), (IH vs t' items' Hrest rest). reflexivity.
+  Qed.
+
   Theorem read_off_ok : forall s, read_ok s.
   Proof.
     apply shape_ind'.
@@ -1161,6 +1325,19 @@ Section ReadOff.
       injection H as <- <-. cbn [app read_off]. rewrite <- app_assoc. cbn [app].
       rewrite (bools_read l false t items Et) by (pose proof (bools_len _ _ _ _ _ Et); rewrite app_length; cbn [length]; lia).
       reflexivity.
+    - (* std::tuple *)
+      intros ss Hss0 Hf. rewrite map_free_tuple, forallb_forall in Hf.
+      assert (Hss : Forall read_ok' ss).
+      { rewrite Forall_forall in Hss0. apply Forall_forall. intros s0 Hin. exact (Hss0 s0 Hin (Hf s0 Hin)). }
+      split; [|intros rest; reflexivity].
+      intros v toks r rest H Hn. cbn [MpLoadModel.load_tr] in H.
+      assert (Hnc : forall w, no_container o w = (toks, r) -> read_off (STuple ss) (toks ++ rest) = Some (r, rest)).
+      { intros w Hw. unfold no_container in Hw. destruct w; destruct (o_mismatch o); injection Hw as <- <-; try (exfalso; exact Hn); reflexivity. }
+      destruct v; try (eapply Hnc; exact H).
+      destruct (comps_tr o load_tr ss l) as [[t items] err] eqn:Et. destruct err as [err|].
+      { injection H as _ <-. destruct Hn. }
+      injection H as <- <-. cbn [app read_off]. rewrite <- app_assoc. cbn [app].
+      rewrite (comps_read ss Hss l t items Et). reflexivity.
   Qed.
 
   (* what the program's answers say is what load_spec says *)
